@@ -1,5 +1,5 @@
 """What MANIFEST.json claims, per property (edited as the framework grows)."""
-FIX_COMMITS = ["4727107", "486f7ce", "d05ddbd", "f423e4b", "7fe0d0d", "5df9647"]
+FIX_COMMITS = ["4727107", "486f7ce", "d05ddbd", "f423e4b", "7fe0d0d", "5df9647", "d27b645", "987e38c"]
 
 ENGINE_NOTE = ("Trusted: Coq 8.16.1 kernel (vm_compute for table obligations; no axioms: every theorem is "
                "'Closed under the global context'); tools/translate.py (reflective dump of the live classes, "
@@ -22,4 +22,16 @@ CLAIMED = {
              "and Line.parse_cache are exercised, not proved.",
         technique="Rocq proof (induction over engine model, K3 scope contract) + regenerated tables + model/impl correspondence + history search"),
 }
+CLAIMED["C08"] = dict(
+    design_ref="DESIGN.md 4 (C08), 3.4",
+    text="Theorems (tables regenerated from /repo, every leaf oracle, every input): a returned tree is well nested "
+         "w.r.t. the table (K4: every block node ends with a statement of its end class whose label/name agree with "
+         "the opener as the rule's flags demand, recursively), its leaves are exactly the source items in order when "
+         "the Main_Program0 fall-back was not taken (K2), and every failing rule invocation restores the reader (K1). "
+         "Tie: regenerated tables + exact model/implementation correspondence on structural mutants. Failing-input "
+         "search: every single structural edit and parenthesis edit of generated programs must raise (with comments "
+         "dropped and kept).",
+    note=ENGINE_NOTE + " Which texts count as opener/END and parenthesis balance inside a statement are "
+         "statement-level (leaf oracle); the latter is covered end-to-end and by the SplitLine laws (C02).",
+    technique="Rocq proof (induction over engine model: K1 restore, K2 yield, K4 well-nestedness) + regenerated tables + correspondence + exhaustive single-edit search")
 NOT_CLAIMED = {}
